@@ -52,7 +52,7 @@ def guarded_decode(codec, tname, data, e, measure_mem=False):
     import prophy
     msg = codec.new(tname)
     old = signal.signal(signal.SIGALRM, _alarm)
-    signal.setitimer(signal.ITIMER_REAL, WATCHDOG_S)
+    signal.setitimer(signal.ITIMER_REAL, WATCHDOG_S, 1.0)   # repeating: a raise inside a gc callback is swallowed
     peak = None
     try:
         if measure_mem:
